@@ -33,12 +33,12 @@ const (
 type nsKind int
 
 const (
-	nsHonest     nsKind = iota
-	nsUntrusted         // certified by a CA the others do not trust
-	nsExpired           // certificate valid only in the past
-	nsAddrThief         // trusted certificate for its own address, but placed at another node's underlay address in static maps
-	nsSelfClaim         // trusted certificate that lists the address of another honest node
-	nsBlocklisted       // fingerprint blocklisted by everyone else
+	nsHonest      nsKind = iota
+	nsUntrusted          // certified by a CA the others do not trust
+	nsExpired            // certificate valid only in the past
+	nsAddrThief          // trusted certificate for its own address, but placed at another node's underlay address in static maps
+	nsSelfClaim          // trusted certificate that lists the address of another honest node
+	nsBlocklisted        // fingerprint blocklisted by everyone else
 )
 
 func (k nsKind) String() string {
@@ -72,20 +72,20 @@ type nsWorldOpts struct {
 }
 
 type nsWorld struct {
-	pid      string
-	s        *nsSim
-	specs    []*nsNodeSpec
-	nodes    []*nsNode
-	cas      []*nsCA // [0] trusted, [1] untrusted
-	byFP     map[string]int
-	lhIdx    int
-	relayIdx int
-	injected map[string]*nsInjected // payload tag -> record
-	nextTag  int
-	tunSeen  []int // per node: how many tun outputs were already accounted
-	udpSeen  int   // how many history packets were already checked for C36
-	known    map[*HostInfo]bool
-	blockFP  []string
+	pid         string
+	s           *nsSim
+	specs       []*nsNodeSpec
+	nodes       []*nsNode
+	cas         []*nsCA // [0] trusted, [1] untrusted
+	byFP        map[string]int
+	lhIdx       int
+	relayIdx    int
+	injected    map[string]*nsInjected // payload tag -> record
+	nextTag     int
+	tunSeen     []int // per node: how many tun outputs were already accounted
+	udpSeen     int   // how many history packets were already checked for C36
+	known       map[*HostInfo]bool
+	blockFP     []string
 	partitioned [][2]int
 	// dynBlock[x][y]: node x reloaded its configuration with identity y's fingerprints blocklisted
 	dynBlock map[int]map[int]bool
@@ -261,6 +261,16 @@ func nsGenWorld(rt *rapid.T, s *nsSim, o nsWorldOpts) *nsWorld {
 		}
 		if len(w.blockFP) > 0 && sp.kind != nsBlocklisted {
 			cfg["pki"] = nsM{"blocklist": append([]string{}, w.blockFP...)}
+		}
+		if len(sp.versions) == 2 && sp.versions[0] == cert.Version2 {
+			// a node holding both certificate versions initiates with v1 unless configured otherwise:
+			// listing v2 first stands for pki.initiating_version: 2
+			pk, _ := cfg["pki"].(nsM)
+			if pk == nil {
+				pk = nsM{}
+				cfg["pki"] = pk
+			}
+			pk["initiating_version"] = 2
 		}
 		if o.cipher != "" {
 			cfg["cipher"] = o.cipher
